@@ -43,6 +43,8 @@ def main():
         sh(["git", "-C", "/repo", "checkout", "--", "."])
         sh(["git", "-C", "/repo", "reset", "-q"])
         sh(["git", "-C", "/repo", "checkout", "--", "."])
+        # the evidence written while the patch was applied describes the patched tree: restore the committed files
+        sh(["git", "-C", str(V), "checkout", "--", "evidence"])
     sid = f"{prop}_{int(n) + off}"
     out = V / "seeded" / sid
     out.mkdir(parents=True, exist_ok=True)
